@@ -86,3 +86,19 @@ LEVEL_TEXT += _ADD7
 _ADD22 = ' Borrowed: R09.2 (the per-field block stores what the key rules prescribe).'
 EXPLANATION += _ADD22
 LEVEL_TEXT += _ADD22
+
+
+_run_before_r5 = run
+
+
+def run(repo, rep, tier):  # noqa: F811 -- round-5 shape rules appended to the rules above
+    _run_before_r5(repo, rep, tier)
+    if getattr(rep, "borrowed", False):
+        return
+    from ..core import round5 as _r5
+    _r5.positional_annotation_lookup(repo, rep, "R18.9")
+
+
+_ADDR5B = " Borrowed: R18.9 (a user deserialize callable's input annotation is looked up by position)."
+EXPLANATION += _ADDR5B
+LEVEL_TEXT += _ADDR5B
